@@ -1,6 +1,7 @@
 package extractor
 
 import (
+	"fmt"
 	"strings"
 
 	"github.com/internetarchive/Zeno/pkg/models"
@@ -21,6 +22,14 @@ func IsPDF(URL *models.URL) bool {
 
 func PDF(URL *models.URL) (outlinks []*models.URL, err error) {
 	defer URL.RewindBody()
+
+	// The PDF library panics on some malformed documents: a server-controlled body
+	// must cost this URL its outlinks, not the whole crawler
+	defer func() {
+		if r := recover(); r != nil {
+			outlinks, err = nil, fmt.Errorf("pdf: recovered from panic while reading annotations: %v", r)
+		}
+	}()
 
 	annots, err := pdfapi.Annotations(URL.GetBody(), nil, nil)
 	if err != nil {
